@@ -35,6 +35,8 @@ class VHD(AlignedStream):
         super().__init__(self.disk.size)
 
     def _read(self, offset: int, length: int) -> bytes:
+        # The buffered stream reads whole aligned blocks, never read past the end of the disk
+        length = min(length, self.size - offset)
         sector = offset // SECTOR_SIZE
         count = (length + SECTOR_SIZE - 1) // SECTOR_SIZE
 
